@@ -66,6 +66,9 @@ struct Args {
     budget_s: f64,
     noise: u32,
     reps: usize,
+    /// leave the hook uninstalled: the hook's own atomic operations act as fences between the
+    /// instrumented steps and would hide store->load reorderings (stress scenarios use this)
+    no_hook: bool,
 }
 
 fn parse_args() -> Args {
@@ -86,6 +89,7 @@ fn parse_args() -> Args {
         budget_s: 1e9,
         noise: 0,
         reps: 1,
+        no_hook: false,
     };
     let v: Vec<String> = std::env::args().collect();
     let mut i = 1;
@@ -109,6 +113,11 @@ fn parse_args() -> Args {
             "--reps" => a.reps = val(i).parse().unwrap(),
             "--thorough" => {
                 a.thorough = true;
+                i += 1;
+                continue;
+            }
+            "--no-hook" => {
+                a.no_hook = true;
                 i += 1;
                 continue;
             }
@@ -248,12 +257,14 @@ fn main() {
     if let Some(c) = def.pool_cap {
         may::config().set_pool_capacity(c);
     }
-    hook::install();
+    if !a.no_hook {
+        hook::install();
+    }
     let names = hook::site_names();
     let mut st = Stats { execs: 0, planned: 0, stalls_hit: 0, events: 0, sigs: HashSet::new(), nontrivial: HashSet::new(), violations: vec![], inconclusive: 0, samples: vec![], wall: Instant::now() };
     let mut stop_code = 0;
 
-    let mut handle = |st: &mut Stats, o: Outcome, seed_i: u64, sseed: u64, plan_j: usize, plan: &[PlanEntry]| -> i32 {
+    let handle = |st: &mut Stats, o: Outcome, seed_i: u64, sseed: u64, plan_j: usize, plan: &[PlanEntry]| -> i32 {
         st.execs += 1;
         st.events += o.events;
         let (sig, switches) = o.trace.signature();
